@@ -10,6 +10,9 @@ parsed, never imported).  Translated methods:
   LocalScriptAdapter._write_script
   LSFScriptAdapter.get_header (with the walltime conversion), get_parallelize_command,
                    _write_script
+  FluxScriptAdapter._convert_walltime_to_seconds (isinstance(v, int|float|str), v.isnumeric(),
+                   float(v), c in v, v.split(c)[::-1], enumerate, 60.0 ** i, integral float
+                   literals: floats are modelled on integers; result an int or a float)
   FluxScriptAdapter._write_script (get_header / get_parallelize_command go through the
                    version-specific flux interface: parameters, modelled by hand)
 
@@ -266,6 +269,8 @@ def ex(cx, e, binds):
             return str(e.value), "intlit"
         if e.value is None:
             return "None", "nonelit"
+        if isinstance(e.value, float) and e.value.is_integer() and 0 <= e.value < 2 ** 53:
+            return "%d%%Z" % int(e.value), "F"        # an integral float (floats are modelled on integers)
         cx.bad(e, "constant")
     if isinstance(e, ast.Name):
         if e.id in cx.env:
@@ -320,6 +325,13 @@ def ex(cx, e, binds):
             v, ty = ex(cx, a, binds)
             items.append(coerce(cx, a, v, ty, "str"))
         return "[%s]" % "; ".join(items), "strs"
+    if isinstance(e, ast.Subscript) and isinstance(e.slice, ast.Slice) and e.slice.lower is None and \
+            e.slice.upper is None and isinstance(e.slice.step, ast.UnaryOp) and isinstance(e.slice.step.op, ast.USub) and \
+            isinstance(e.slice.step.operand, ast.Constant) and e.slice.step.operand.value == 1:
+        v, ty = ex(cx, e.value, binds)
+        if ty != "strs":
+            cx.bad(e, "[::-1] of a %s" % ty)
+        return "rev %s" % atom(v), "strs"
     if isinstance(e, ast.Subscript):
         if step_attr(e.value, "run") and const_str(e.slice) and e.slice.value in ("cmd", "restart"):
             return "st_%s st" % e.slice.value, "str"
@@ -343,9 +355,17 @@ def ex(cx, e, binds):
         if ta == "val":
             return "v_or %s %s" % (atom(a), atom(coerce(cx, e, b, tb, "val"))), "val"
         cx.bad(e, "`or` of a %s" % ta)
+    if isinstance(e, ast.BinOp) and isinstance(e.op, ast.Pow):
+        a, ta = ex(cx, e.left, binds)
+        b, tb = ex(cx, e.right, binds)
+        if ta == "F" and tb == "nat":
+            return "Z.pow %s (Z.of_nat %s)" % (atom(a), atom(b)), "F"
+        cx.bad(e, "power of a %s by a %s" % (ta, tb))
     if isinstance(e, ast.BinOp) and isinstance(e.op, (ast.Add, ast.Mult, ast.Mod)):
         a, ta = ex(cx, e.left, binds)
         b, tb = ex(cx, e.right, binds)
+        if ta == "F" and tb == "F" and isinstance(e.op, (ast.Add, ast.Mult)):
+            return "(%s %s %s)%%Z" % (a, "+" if isinstance(e.op, ast.Add) else "*", b), "F"
         if "Z" in (ta, tb) and ta in ("Z", "intlit") and tb in ("Z", "intlit"):
             a, b = coerce(cx, e, a, ta, "Z"), coerce(cx, e, b, tb, "Z")
             if isinstance(e.op, ast.Mod):
@@ -403,9 +423,25 @@ def call(cx, e, binds):
             if ty != "Z":
                 cx.bad(e, "division of a %s" % ty)
             return "Z.quot %s %d" % (atom(v), e.args[0].right.value), "Z"
+        if f.id == "isinstance" and len(e.args) == 2 and not e.keywords and isinstance(e.args[1], ast.Name) and \
+                e.args[1].id in ("int", "float", "str") and e.args[1].id not in cx.env:
+            v, ty = ex(cx, e.args[0], binds)
+            if ty != "val":
+                cx.bad(e, "isinstance of a %s" % ty)
+            return "v_is_%s %s" % (e.args[1].id, atom(v)), "bool"
+        if f.id == "float" and len(e.args) == 1 and not e.keywords:
+            v, ty = ex(cx, e.args[0], binds)
+            x = cx.fresh()
+            if ty == "val":
+                binds.append((x, "v_float %s" % atom(v)))
+            elif ty == "str":
+                binds.append((x, "float_int %s" % atom(v)))
+            else:
+                cx.bad(e, "float of a %s" % ty)
+            return x, "F"
         if f.id == "int" and len(e.args) == 1 and not e.keywords:
             v, ty = ex(cx, e.args[0], binds)
-            if ty == "Z":
+            if ty in ("Z", "F"):
                 return v, "Z"
             x = cx.fresh()
             binds.append((x, "int_of %s" % atom(coerce(cx, e, v, ty, "val"))))
@@ -488,6 +524,12 @@ def call(cx, e, binds):
             return "join %s %s" % (atom(coq_str(f.value.value)), atom(l)), "str"
         cx.bad(e, "join of a %s" % ty)
     o, to = ex(cx, f.value, binds)
+    if f.attr == "isnumeric" and to == "val" and not e.args and not e.keywords:
+        return "v_isnumeric %s" % atom(o), "bool"       # only evaluated behind isinstance(.., str)
+    if f.attr == "split" and to == "val" and len(e.args) == 1 and const_str(e.args[0]) and not e.keywords:
+        x = cx.fresh()
+        binds.append((x, "v_split %s %s" % (atom(coq_str(e.args[0].value)), atom(o))))
+        return x, "strs"
     if f.attr == "get" and to == "dict" and 1 <= len(e.args) <= 2 and not e.keywords:
         k, tk = ex(cx, e.args[0], binds)
         if tk != "str":
@@ -535,6 +577,9 @@ def cond(cx, e, binds):
                 t = "d_has %s %s" % (atom(a), atom(b))
             elif ta == "str" and tb == "str":
                 t = "containsb %s %s" % (atom(a), atom(b))
+            elif ta == "str" and tb == "val":
+                t = cx.fresh()                          # TypeError unless a str
+                binds.append((t, "v_contains %s %s" % (atom(a), atom(b))))
             else:
                 cx.bad(e, "`in` of a %s in a %s" % (ta, tb))
             return t if isinstance(op, ast.In) else "negb (%s)" % t
@@ -546,6 +591,8 @@ def cond(cx, e, binds):
                 return "Nat.eqb %s %s" % (atom(coerce(cx, e, a, ta, ty)), atom(coerce(cx, e, b, tb, ty)))
             if ty == "Z":
                 return "(%s =? %s)%%Z" % (coerce(cx, e, a, ta, ty), coerce(cx, e, b, tb, ty))
+            if ta == "val" and tb == "str":
+                return "v_eq_str %s %s" % (atom(a), atom(b))
             cx.bad(e, "== of a %s and a %s" % (ta, tb))
         if isinstance(op, (ast.Gt, ast.Lt)):
             a, ta = ex(cx, l, binds)
@@ -713,6 +760,8 @@ def block(cx, stmts, k):
             return emit_binds(binds) + "let %s := %s ++ %s in\n%s" % (G(n), G(n), v, cont())
         if ty == "Z":
             return emit_binds(binds) + "let %s := (%s + %s)%%Z in\n%s" % (G(n), G(n), coerce(cx, st, v, tv, "Z"), cont())
+        if ty == "F" and tv == "F":
+            return emit_binds(binds) + "let %s := (%s + %s)%%Z in\n%s" % (G(n), G(n), v, cont())
         cx.bad(st, "+= on a %s" % ty)
     if isinstance(st, ast.Expr) and isinstance(st.value, ast.Call) and isinstance(st.value.func, ast.Attribute) and \
             isinstance(st.value.func.value, ast.Name):
@@ -786,6 +835,15 @@ def ret(cx, st):
     if cx.ret == "str":
         t, ty = ex(cx, v, binds)
         return emit_binds(binds) + "Ok %s" % atom(coerce(cx, st, t, ty, "str"))
+    if cx.ret == "num":
+        t, ty = ex(cx, v, binds)
+        if ty == "intlit":
+            return emit_binds(binds) + "Ok (NumI %s%%Z)" % t
+        if ty == "Z":
+            return emit_binds(binds) + "Ok (NumI %s)" % atom(t)
+        if ty == "F":
+            return emit_binds(binds) + "Ok (NumF %s)" % atom(t)
+        cx.bad(st, "return of a %s" % ty)
     if cx.ret == "sched3" and isinstance(v, ast.Tuple) and len(v.elts) == 3:
         parts = []
         for x, want in zip(v.elts, ("bool", "str", "str")):
@@ -911,6 +969,17 @@ def for_stmt(cx, st, cont):
         it = "%s_header" % cx.adapter
         names = [x.id for x in st.target.elts]
         cx.env[names[0]], cx.env[names[1]] = "str", "tpl"
+        pat = "'(%s, %s)" % (G(names[0]), G(names[1]))
+    elif isinstance(st.iter, ast.Call) and isinstance(st.iter.func, ast.Name) and st.iter.func.id == "enumerate" and \
+            "enumerate" not in cx.env and len(st.iter.args) == 1 and not st.iter.keywords and \
+            isinstance(st.target, ast.Tuple) and len(st.target.elts) == 2 and \
+            all(isinstance(x, ast.Name) for x in st.target.elts):
+        l, tl = ex(cx, st.iter.args[0], binds)
+        if tl != "strs":
+            cx.bad(st, "enumerate of a %s" % tl)
+        it = "(enum %s)" % atom(l)
+        names = [x.id for x in st.target.elts]
+        cx.env[names[0]], cx.env[names[1]] = "nat", "str"
         pat = "'(%s, %s)" % (G(names[0]), G(names[1]))
     elif isinstance(st.iter, ast.Name) and cx.env.get(st.iter.id) == "matches" and isinstance(st.target, ast.Name):
         it = G(st.iter.id)
@@ -1075,6 +1144,13 @@ def generate(repo):
              {"files": "files"}, "lsf_par_gen", "script", init="let files := [] : files in\n"))
     # ---- FluxScriptAdapter ---------------------------------------------------------
     flux = parse(repo, FLUX)
+    w("")
+    fn = find_method(FLUX, flux, "FluxScriptAdapter", "_convert_walltime_to_seconds")
+    params(FLUX, fn, ["self", "walltime"])
+    w("(* FluxScriptAdapter._convert_walltime_to_seconds: an int, or a float (modelled on integers) *)")
+    w(method(FLUX, "flux", fn,
+             "Definition flux_convert_walltime_gen (walltime : val) : res num :=",
+             {"walltime": "val"}, None, "num"))
     w("")
     fn = find_method(FLUX, flux, "FluxScriptAdapter", "_write_script")
     params(FLUX, fn, ["self", "ws_path", "step"])
